@@ -457,13 +457,22 @@ Definition parse_pdr_wire (v ue : N) (t : table) (its : list item) : pdr_res :=
 (* ---------------------------------------------------------------- handlePFDMgmtRequest *)
 
 (* one Application ID's PFDs IE as seen through the go-pfcp accessors the handler calls:
-   ApplicationID() (None = error) and the PFD Context IEs it carries, in order, each as the list of
-   its children with the outcome of PFDContents() (None = error, Some fd = FlowDescription).
-   The handler reads the contexts through the PFDContext() accessor, which returns the children of the
-   FIRST PFD Context IE only (ErrIENotFound when there is none). *)
-Record app_ie := AppIE { a_id : option str; a_ctxs : list (list (option str)) }.
+   ApplicationID() (None = error) and the PFD Context IEs it carries, in order; a context is None
+   when its PFDContext() accessor fails, else the list of its children with the outcome of
+   PFDContents() (None = error, Some fd = FlowDescription).
+   allPFDContents (messages_conn.go) walks every PFD Context child in order: the first unreadable
+   one is an error, no context at all is ErrIENotFound, otherwise the children are concatenated. *)
+Record app_ie := AppIE { a_id : option str; a_ctxs : list (option (list (option str))) }.
+
+Fixpoint all_contents (cs : list (option (list (option str)))) : option (list (option str)) :=
+  match cs with
+  | [] => Some []
+  | None :: _ => None
+  | Some c :: r => match all_contents r with Some l => Some (c ++ l) | None => None end
+  end.
+
 Definition a_ctx (a : app_ie) : option (list (option str)) :=
-  match a_ctxs a with [] => None | c :: _ => Some c end.
+  match a_ctxs a with [] => None | cs => all_contents cs end.
 
 Inductive fill_res := FillOk (ds : list str) | FillErrRemove | FillErrKeep.
 
